@@ -47,7 +47,9 @@ def run_faulting(ck, exe, cases, env=None, label=""):
         if i < len(cases):
             m = re.search(r"SUMMARY: \w+Sanitizer: (\S+) (\S+?)(?::\d+)* in (\S+)", e)
             m2 = re.search(r"([\w./]+):(\d+):\d+: runtime error: ([^\n]*)", e)
-            if m:
+            if "VERIF-TIMEOUT" in e:
+                summ = "timeout"
+            elif m:
                 summ = "%s:%s:%s" % (m.group(1), os.path.basename(m.group(2)), m.group(3))
             elif m2:
                 summ = "ubsan:%s:%s" % (os.path.basename(m2.group(1)), re.sub(r"\d+", "N", m2.group(3))[:60].replace(" ", "_"))
@@ -267,7 +269,7 @@ def gen_gn(ck, r, budget):
         elif m == 1: add(gn_case(nb, junk=bytes(r.randrange(256) for _ in range(r.choice([1, 2, 3]))), tail_exts=tails), "rand-junk")
         elif m == 2: add(gn_case(nb[:r.randrange(len(nb) + 1)], tail_exts=tails), "rand-trunc")
         elif m == 3: add(gn_case(nb, seqform=r.choice([1, 2, 3]), octform=r.choice([None, 2]), tail_exts=tails, inexact=ix), "rand-longform")
-        else:        add(gn_case(nb, tail_exts=tails, inexact=ix), "rand:" + "+".join(sorted(set(kinds))))
+        else:        add(gn_case(nb, tail_exts=tails, inexact=ix), "rand:" + (kinds[0] if len(set(kinds)) == 1 else "mix"))
     return cases
 
 
@@ -460,7 +462,7 @@ def whole_line(op, b, extra):
 def gen_whole(ck, r, seeds, budget):
     cases, meta = [], []
     def add(op, b, extra, kind, name):
-        cases.append(whole_line(op, b, extra)); meta.append((op, kind, name)); ck.count("whole:%s:%s" % (op, kind))
+        cases.append(whole_line(op, b, extra)); meta.append((op, kind, name)); ck.count("whole:%s:%s" % (op, kind.split("+")[0]))
     for name, op, b, extra in seeds:
         add(op, b, extra, "seed", name)
     # every truncation point of a few small seeds (header boundaries for the others)
@@ -619,6 +621,10 @@ def run(ck):
     for idx, summ in faults_a:
         c = mcases[idx]
         op = c.split(" ", 1)[0]
+        if op == "taglen":
+            # getAsnTagLenUnsafe has no length argument: it is safe only under its call-site contract
+            # (c09_taglen_unsafe_partial); outside it the fault must merely coincide with the model's Fault
+            continue
         ck.spec_violation("fault:%s:%s" % (op, summ), "sanitizer abort in a modelled parser primitive (%s) on %s" % (summ, op),
                           {"harness": "h_asn (asan)", "case": c[:4000], "observed": "FAULT " + summ, "expected_by_spec": "an error code or success, no memory error / undefined behaviour",
                            "model": model[idx] if idx < len(model) else None})
